@@ -256,6 +256,25 @@ def worker(case, led):
             leak = np.abs(rho[~mask][:, ~mask]).max() if (~mask).any() else 0.0
             led.check(leak <= 1e-10 and not S.qnv_violations(m), "post:ThermalProp.evolve:stays_in_sector", "ThermalProp.evolve", f"weight outside the sector {leak:.2e}",
                       key + ("sector",), fields, rep)
+            # the Gibbs averages do not depend on the norm of the purified identity the job starts from (the bond expander behind auto_expand mixes in its
+            # random component relative to that norm): the same run from 1e-9 x the same start
+            if sector == 1 and method in ("tdvp_ps", "tdvp_ps2"):
+                try:
+                    A1 = getattr(MpDm, ctor)(model).scale(1e-9)
+                    A1.compress_config = CompressConfig(CompressCriteria.fixed, max_bonddim=64)
+                    st_ = np.random.get_state()
+                    np.random.seed(seed + 3)
+                    try:
+                        tp1 = ThermalProp(A1, evolve_config=EvolveConfig(getattr(EvolveMethod, method), guess_dt=-1j * dbeta))
+                        tp1.evolve(evolve_dt=-1j * dbeta, nsteps=nsteps)
+                    finally:
+                        np.random.set_state(st_)
+                    occ1 = np.asarray(tp1.e_occupations_array[-1])
+                    led.check(abs(tp1.energies[-1] - e_ref) <= tol and np.abs(occ1 - np.array(occ_ref)).max() <= 4 * nsteps * per_step + 1e-9,
+                              "post:ThermalProp.evolve:gibbs_averages_independent_of_the_norm_of_the_start", "ThermalProp.evolve",
+                              f"start scaled by 1e-9: E={tp1.energies[-1]:.6f} vs {e_ref:.6f} (tol {tol:.2e}), occupations {occ1} vs {occ_ref}", key + ("tiny-start",), fields, dict(rep, start_scale=1e-9))
+                except Exception as e:
+                    led.check(False, "post:ThermalProp.evolve:total", "ThermalProp.evolve", f"start scaled by 1e-9: raised {type(e).__name__}: {e}", key + ("tiny-start",), fields, rep)
     elif kind == "thermal_exact":
         _, nmol, scheme, seed, tier = case
         from renormalizer.mps import MpDm, ThermalProp
